@@ -190,6 +190,16 @@ func PCRGenome(r *rand.Rand, nseq, barcode int) (fasta []byte, fwd, rev string) 
 			seq = append(seq, DNA(r, max(1, barcode-r.Intn(3)))...)
 			seq = append(seq, rc([]byte(rev))...)
 		}
+		// with -L 10 the pieces are 1000 bases long and start every 956 bases: products are also put
+		// exactly inside the 44 bases shared by two consecutive pieces, among them pieces 99 and 100
+		// (the pieces are handed to the workers by batches of 100)
+		prod := append(append([]byte(fwd), DNA(r, barcode)...), rc([]byte(rev))...)
+		for _, k := range []int{5, 50, 100, 101, 130} {
+			at := k*956 + 1
+			if at+len(prod) < len(seq)-2000 {
+				copy(seq[at:], prod)
+			}
+		}
 		fmt.Fprintf(&sb, ">chr%d\n%s\n", i, seq)
 	}
 	return []byte(sb.String()), fwd, rev
